@@ -1,0 +1,103 @@
+//go:build verif
+
+// Copyright Istio Authors
+//
+// Licensed under the Apache License, Version 2.0 (the "License");
+// you may not use this file except in compliance with the License.
+// You may obtain a copy of the License at
+//
+//     http://www.apache.org/licenses/LICENSE-2.0
+//
+// Unless required by applicable law or agreed to in writing, software
+// distributed under the License is distributed on an "AS IS" BASIS,
+// WITHOUT WARRANTIES OR CONDITIONS OF ANY KIND, either express or implied.
+// See the License for the specific language governing permissions and
+// limitations under the License.
+
+package ca
+
+import (
+	"context"
+
+	pb "istio.io/api/security/v1alpha1"
+	"istio.io/istio/pkg/security"
+	"istio.io/istio/pkg/verif"
+	"istio.io/istio/security/pkg/pki/ca"
+)
+
+// ---------------------------------------------------------------------------------------------
+// C09: what CreateCertificate asks the CA to sign
+// ---------------------------------------------------------------------------------------------
+
+// sameStrings: a and b list the same strings in the same order.
+func sameStrings(a, b []string) bool {
+	return len(a) == len(b) && verif.Forall(func(i int) bool { return !(0 <= i && i < len(a)) || a[i] == b[i] })
+}
+
+// from the statement: "the certificate's subject alternative names are exactly the identities
+// established by authentication (or one identity the caller is authorised to impersonate ...); nothing
+// in the CSR or request metadata can add, replace or alter an identity. The certificate is never a CA
+// certificate". Checked on what is handed to the signer, on both signing paths.
+func signsOnlyTheAuthenticatedIdentity(opts ca.CertOpts, caller *security.Caller, impersonatedIdentity string) bool {
+	return !opts.ForCA && caller != nil &&
+		(impersonatedIdentity != "" || sameStrings(opts.SubjectIDs, caller.Identities)) &&
+		(impersonatedIdentity == "" || (len(opts.SubjectIDs) == 1 && opts.SubjectIDs[0] == impersonatedIdentity))
+}
+
+//verif:call-assert (*Server).CreateCertificate Sign 0
+func caSignIdentities(arg1 ca.CertOpts, caller *security.Caller, impersonatedIdentity string) bool {
+	return signsOnlyTheAuthenticatedIdentity(arg1, caller, impersonatedIdentity)
+}
+
+//verif:call-assert (*Server).CreateCertificate SignWithCertChain 0
+func caSignWithCertChainIdentities(arg1 ca.CertOpts, caller *security.Caller, impersonatedIdentity string) bool {
+	return signsOnlyTheAuthenticatedIdentity(arg1, caller, impersonatedIdentity)
+}
+
+// impersonationAccepted: the node authorizer accepted this impersonation request (ghost, uninterpreted;
+// it is established only by authenticateImpersonation returning nil, see its contract below).
+//
+//verif:pure impersonationAccepted
+func impersonationAccepted(m *MulticlusterNodeAuthorizor, k security.KubernetesInfo, id string) bool {
+	panic(verif.NotExecutable{What: "impersonationAccepted"})
+}
+
+// an impersonated identity is signed only after the node authorizer accepted it, for this caller
+//
+//verif:call-assert (*Server).CreateCertificate Sign 0
+func caSignImpersonationWasAccepted(s *Server, caller *security.Caller, impersonatedIdentity string) bool {
+	return impersonatedIdentity == "" || (s.nodeAuthorizer != nil && impersonationAccepted(s.nodeAuthorizer, caller.KubernetesInfo, impersonatedIdentity))
+}
+
+//verif:call-assert (*Server).CreateCertificate SignWithCertChain 0
+func caSignWithCertChainImpersonationWasAccepted(s *Server, caller *security.Caller, impersonatedIdentity string) bool {
+	return impersonatedIdentity == "" || (s.nodeAuthorizer != nil && impersonationAccepted(s.nodeAuthorizer, caller.KubernetesInfo, impersonatedIdentity))
+}
+
+// The response assembly after signing (PEM splitting) does not matter for what is signed.
+//
+//verif:opaque istio.io/istio/security/pkg/pki/util.PemCertBytestoString
+//verif:contract (*Server).CreateCertificate
+//verif:prop C09
+//verif:nosafety
+func ctCreateCertificate(s *Server, ctx context.Context, request *pb.IstioCertificateRequest) {
+	verif.Requires("server-configured", s != nil && s.ca != nil && request != nil)
+	resp, err := s.CreateCertificate(ctx, request)
+	verif.Ensures("no-response-with-an-error", err == nil || resp == nil)
+}
+
+// Assumed, not proved: checking an impersonation request (informer and index lookups) and reading the CA's
+// key/cert bundle do not modify the authenticated caller.
+//
+//verif:trusted-contract (*MulticlusterNodeAuthorizor).authenticateImpersonation
+//verif:writes-nothing
+func ctAuthenticateImpersonationFrame(m *MulticlusterNodeAuthorizor, ctx context.Context, k security.KubernetesInfo, id string) {
+	err := m.authenticateImpersonation(ctx, k, id)
+	verif.Ensures("nil-means-accepted", err != nil || impersonationAccepted(m, k, id))
+}
+
+//verif:iface-contract istio.io/istio/security/pkg/server/ca.CertificateAuthority.GetCAKeyCertBundle
+func ifCABundle(c CertificateAuthority) {
+	b := c.GetCAKeyCertBundle()
+	verif.Ensures("bundle-present", b != nil)
+}
